@@ -272,6 +272,28 @@ def observe_M():
         e = (x - j) ** 2 + 1
         degs.append((AN.compute_degree(e), bool(AN.is_linear(e))))
     out["fresh_degrees"] = sorted(set(degs), key=repr)
+    # DEEP (loop-built, 450 terms) models of M, freshly allocated after whatever the prefix built, analysed and dropped: a sum of
+    # squares, a linear sum and a non-polynomial sum - their classes and an LP / NLP solve
+    import gc
+    from optyx import VectorVariable, Problem
+    from optyx.core import functions as F
+    deep_obs = []
+    for kind_ in ("squares", "linear", "exp", "squares"):
+        gc.collect()
+        zv = VectorVariable("dz", 4, lb=-3.0, ub=3.0)
+        acc = None
+        for k_ in range(450):
+            t = {"squares": (zv[k_ % 4] - 0.25 * (k_ % 5)) ** 2, "linear": (1.0 + k_ % 3) * zv[k_ % 4] - 0.5,
+                 "exp": F.exp(zv[k_ % 4] * 0.01) + zv[(k_ + 1) % 4]}[kind_]
+            acc = t if acc is None else acc + t
+        deep_obs.append([kind_, AN.compute_degree(acc), bool(AN.is_linear(acc)), bool(AN.is_quadratic(acc))])
+        if kind_ != "exp":
+            with warnings.catch_warnings():
+                warnings.simplefilter("ignore")
+                sd = Problem().minimize(acc).solve()
+            deep_obs[-1] += [sd.status.value, None if sd.objective_value is None else round(sd.objective_value, 5)]
+        del acc, zv
+    out["deep_models"] = deep_obs
     return out
 
 
@@ -295,6 +317,20 @@ def prefix(seed, k_compile, k_grad):
         Problem().minimize(t1).subject_to(t1 >= 1).solve()
         wide = VectorVariable("wide", 30, lb=0.0, ub=1.0)
         Problem().maximize(wide.sum()).subject_to(np.arange(1.0, 31.0) @ wide <= 40).solve()
+        # deep (loop-built) models of other classes, analysed, solved and DROPPED: their addresses become available again
+        import gc as _gc
+        for rep_ in range(3):
+            zq = VectorVariable("dz", 4, lb=0.0, ub=2.0)
+            acc = None
+            for k_ in range(450 + rep_):
+                t = (1.0 + (k_ % 3)) * zq[k_ % 4] + 0.5 if rep_ != 1 else F.sin(zq[k_ % 4]) + zq[(k_ + 1) % 4] ** 2
+                acc = t if acc is None else acc + t
+            AN.compute_degree(acc)
+            AN.is_linear(acc)
+            if rep_ != 1:
+                Problem().minimize(acc).solve()
+            del acc, zq
+            _gc.collect()
         xx, yy = Variable("x"), Variable("y")
         keep.append(2.0 * xx + 3.0 * yy + 1.0 + xx ** 2.0 + (-1.0) * yy + 0 * xx + 1 * yy + 3 * xx ** 2)
         for i in range(max(3, k_compile // 12)):
